@@ -126,6 +126,24 @@ def t_exit_3():
     sys.exit(3)
 
 
+def t_exit_0():
+    sys.exit(0)
+
+
+def t_exit_255():
+    sys.exit(255)
+
+
+def t_exit_empty_msg():
+    sys.stderr = open(os.devnull, 'w')
+    sys.exit('')
+
+
+def t_exit_object():
+    sys.stderr = open(os.devnull, 'w')
+    sys.exit([])
+
+
 def t_exit_msg():
     sys.stderr = open(os.devnull, 'w')
     sys.exit('bye')
@@ -143,6 +161,8 @@ def scen_children():
     out = []
     for name, target, want in (('returns', t_return, 0), ('raises', t_raise, 1), ('sys.exit()', t_exit_none, 1),
                                ('sys.exit(3)', t_exit_3, 3), ('sys.exit("bye")', t_exit_msg, 0),
+                               ('sys.exit(0)', t_exit_0, 0), ('sys.exit(255)', t_exit_255, 255),
+                               ('sys.exit("")', t_exit_empty_msg, 0), ('sys.exit([])', t_exit_object, 1),
                                ('SIGKILL', t_kill, -9)):
         code, _, active, twice = child_exit_code(target, start_twice=(name == 'returns'))
         if code != want:
